@@ -531,18 +531,18 @@ FLOORS = {
 }
 
 CHECKS = [
-    Check('equipment', documents.equipment_doc(), run_equipment, quick=150, thorough=5000,
+    Check('equipment', documents.equipment_doc(), run_equipment, quick=140, thorough=5000,
           doc='equipment library: conversions, loader equality, aliases'),
-    Check('topology', documents.topology_case(), run_topology, quick=120, thorough=4000,
+    Check('topology', documents.topology_case(), run_topology, quick=110, thorough=4000,
           doc='topology: conversions, network_from_json equality'),
-    Check('services', documents.services_case(), run_services, quick=120, thorough=4000,
+    Check('services', documents.services_case(), run_services, quick=100, thorough=4000,
           doc='service file: conversions, PathRequest / Disjunction equality'),
-    Check('small', small_case(), run_small, quick=150, thorough=5000,
+    Check('small', small_case(), run_small, quick=130, thorough=5000,
           doc='spectrum, sim-params, amplifier advanced config'),
-    Check('seeds', documents.seed_case(), run_seed, quick=60, thorough=1500,
+    Check('seeds', documents.seed_case(), run_seed, quick=50, thorough=1500,
           doc='shipped example files, plain and with moved values'),
-    Check('propagation', propagation_case(), run_propagation, quick=40, thorough=1200,
+    Check('propagation', propagation_case(), run_propagation, quick=36, thorough=1200,
           doc='design + propagation from both forms give the same receiver figures'),
-    Check('key-order', documents.key_order_case(), run_key_order, quick=40, thorough=600,
+    Check('key-order', documents.key_order_case(), run_key_order, quick=36, thorough=600,
           doc='keyed-list entry written with its key member last: converted in a child process (crash / rejected / ok)'),
 ]
